@@ -223,6 +223,8 @@ func (b *Builder) sortOf(t types.Type) string {
 			return "Int"
 		case u.Info()&types.IsString != 0:
 			return "Str"
+		case u.Kind() == types.UntypedFloat:
+			return "Real" // specification reals
 		case u.Info()&types.IsFloat != 0:
 			return "Flt"
 		case u.Kind() == types.UnsafePointer:
